@@ -4,6 +4,7 @@ package checks
 
 import (
 	"fmt"
+	"reflect"
 	"sort"
 
 	"github.com/RoaringBitmap/roaring/v2"
@@ -86,6 +87,13 @@ func vecSearchOpen(seg segment.Segment, field string, q []float32, k int64, exce
 	if !ok {
 		return nil, fmt.Errorf("%T is no VectorSegment", seg)
 	}
+	// what the caller passes in stays the caller's: exclusion bitmap, query vector, eligible list
+	var exBefore *roaring.Bitmap
+	if except != nil {
+		exBefore = except.Clone()
+	}
+	qBefore := append([]float32(nil), q...)
+	elBefore := append([]uint64(nil), eligible...)
 	vi, err := vs.InterpretVectorIndex(field, openFilter, except)
 	if err != nil {
 		if vi != nil {
@@ -93,8 +101,21 @@ func vecSearchOpen(seg segment.Segment, field string, q []float32, k int64, exce
 		}
 		return nil, fmt.Errorf("InterpretVectorIndex(%q): %w", field, err)
 	}
-	defer vi.Close()
-	return searchHandle(vi, q, k, filter, eligible)
+	out, err := searchHandle(vi, q, k, filter, eligible)
+	vi.Close()
+	if err != nil {
+		return nil, err
+	}
+	if except != nil && !except.Equals(exBefore) {
+		return nil, fmt.Errorf("INPUT-MODIFIED: the caller's exclusion bitmap changed from %v to %v", exBefore, except)
+	}
+	if !reflect.DeepEqual(qBefore, append([]float32(nil), q...)) {
+		return nil, fmt.Errorf("INPUT-MODIFIED: the caller's query vector changed from %v to %v", qBefore, q)
+	}
+	if !reflect.DeepEqual(elBefore, append([]uint64(nil), eligible...)) {
+		return nil, fmt.Errorf("INPUT-MODIFIED: the caller's eligible list changed from %v to %v", elBefore, eligible)
+	}
+	return out, nil
 }
 
 func searchHandle(vi segment.VectorIndex, q []float32, k int64, filter bool, eligible []uint64) ([]vecPair, error) {
